@@ -2,6 +2,7 @@ from lib.runner import PropCheck, Stream
 
 BB_FILES = {"zzverif/c17/c17_test.go": "bb/c17/c17_test.go",
             "zzverif/c17core/core.go": "bb/c17core/core.go",
+            "zzverif/c17core/faultstore.go": "bb/c17core/faultstore.go",
             "zzverif/vh/vh.go": "vh/vh.go"}
 
 
@@ -33,8 +34,9 @@ class KeysutilFaults(TransitStream):
     harness = KeysutilBB.harness
     testname = "TestVerifC17Faults"
     rule = ("the same histories with a single failing storage Put (1st, 2nd or 3rd of the operation) planned before rotate / "
-            "trim / config / backup / restore, LockManager cache on; the model carries the same fault plan through "
-            "Persist's rollback")
+            "trim / config / backup / restore, LockManager cache on, over a transactional in-memory backend: rotate/config/trim "
+            "run inside a storage transaction as their handlers do (StartTxStorage), create/backup/restore do not; the "
+            "model carries the same fault plan through Persist's rollback")
 
 
 class TransitWB(TransitStream):
@@ -42,6 +44,7 @@ class TransitWB(TransitStream):
     harness = {"name": "c17wb", "module": "root", "pkg": "./internal/zzverif/c17t",
                "files": {"internal/zzverif/c17t/c17t_test.go": "wb/transit/c17t_test.go",
                          "sdk/zzverif/c17core/core.go": "bb/c17core/core.go",
+                         "sdk/zzverif/c17core/faultstore.go": "bb/c17core/faultstore.go",
                          "sdk/zzverif/vh/vh.go": "vh/vh.go"}}
     testname = "TestVerifC17Endpoints"
     rule = ("the same generator driving the real transit backend through Backend.HandleRequest (keys/<name>, /config, /trim, "
@@ -53,7 +56,7 @@ class TransitWBFaults(TransitStream):
     harness = TransitWB.harness
     testname = "TestVerifC17EndpointFaults"
     rule = ("endpoint histories with a single failing storage Put planned before keys/<name>/rotate, /trim, /config, "
-            "backup/<name>, restore/<name> (cache on); starts with the two directed histories of finding F13")
+            "backup/<name>, restore/<name> (cache on); starts with the directed histories of the repaired finding F38 (trim) and of a failed, retried rotation")
 
 
 class C17(PropCheck):
@@ -66,8 +69,9 @@ class C17(PropCheck):
                   "any length: archive_invariant, no_panic, roundtrip, rewrap_roundtrip, binds_inputs, "
                   "encrypt_respects_min_enc, old_versions_until_min_raised (iff, along any later ring-keeping history), "
                   "convergent_deterministic, sign_verify_sound/iff, hmac_verify_sound/iff, atoi_itoa; "
-                  "old_versions_under_faults_cex proves that the same statement is false once a single storage Put may fail "
-                  "(finding F13). The model is tied to the Go code by differential history streams at the keysutil level and "
+                  "old_versions_under_faults_partial extends it to histories with a failing storage Put inside rotate/config/trim "
+                  "(true since the repair of F38), old_versions_under_faults_cex proves it false for a Put failing inside "
+                  "restore (finding F39). The model is tied to the Go code by differential history streams at the keysutil level and "
                   "through the real endpoints (with and without injected Put faults) on every run, and the property "
                   "predicate is evaluated directly on every implementation output")
     level_note = ("trusted: Lean kernel; symbolic (Dolev-Yao) cryptography: AEAD open / signature verify / HMAC compare succeed "
@@ -81,7 +85,8 @@ class C17(PropCheck):
         "cryptographic primitives are ideal: AES-GCM / ChaCha20-Poly1305 open, Ed25519 / ECDSA verify and HMAC compare succeed "
         "only for the exact key, nonce, associated data, message and tag produced at sealing time; HKDF derivation is "
         "injective in (key, context)",
-        "fault-free storage for the property theorems (the fault stream ties the model's Persist rollback separately)",
+        "fault-free storage for the property theorems; old_versions_under_faults_partial additionally assumes a "
+        "transactional storage backend (the writes of a failed rotate/config/trim request are rolled back)",
         "key names, version template and KDF mode are the defaults of LockManager-created policies",
     ]
     trusted_base = ["Lean 4.33.0 kernel",
